@@ -67,19 +67,19 @@ Proof.
 Qed.
 
 Lemma allotted_movetime w a :
-  ga_movetime a <> -1 -> in_range (ga_movetime a) ->
+  in_range (ga_movetime a) ->
   allotted_ns w a = Ok ((ga_movetime a - antiflagMillis) * 1000000).
 Proof.
-  unfold allotted_ns, in_range, BIG, antiflagMillis. intros Hn Hr.
-  destruct (ga_movetime a =? -1) eqn:E; [lia|]. cbn [negb].
+  unfold allotted_ns, in_range, BIG, antiflagMillis, no_movetime. intros Hr.
+  destruct (ga_movetime a =? 9223372036854775808) eqn:E; [lia|]. cbn [negb].
   rewrite (int64_id (ga_movetime a - 50)) by lia. rewrite int64_id by lia. reflexivity.
 Qed.
 
 Lemma allotted_clock w a :
-  ga_movetime a = -1 -> in_range (mover_left w a) -> in_range (mover_inc w a) -> 1 <= ga_mtg a ->
+  ga_movetime a = no_movetime -> in_range (mover_left w a) -> in_range (mover_inc w a) -> 1 <= ga_mtg a ->
   allotted_ns w a = Ok (1000000 * alloc (mover_left w a) (mover_inc w a) (ga_mtg a)).
 Proof.
-  intros Hmt Hl Hi Hm. unfold allotted_ns. rewrite Hmt. cbn [Z.eqb negb Pos.eqb].
+  intros Hmt Hl Hi Hm. unfold allotted_ns. rewrite Hmt. rewrite Z.eqb_refl. cbn [negb].
   rewrite millis_no_wrap by assumption. cbn [bind].
   pose proof (alloc_bounds (mover_left w a) (mover_inc w a) (ga_mtg a) Hm) as [B1 B2].
   unfold in_range, BIG, antiflagMillis in *. rewrite int64_id by lia. reflexivity.
